@@ -307,7 +307,7 @@ func (d *Driver) judgeC12() {
 					if due == nil {
 						d.h.violate("C12", fmt.Sprintf("health-demotion-below-threshold/count=%d/m=%d", count, m), fmt.Sprintf("i%d.%d demoted by the health mechanism at %v after %d consecutive unhealthy results of this term (threshold %d)", in.idx, o.gen, c.T, count, m), c.T, c.Step)
 					} else if !in.cfg.NoCallbacks {
-						if cb := d.demoteCbAfter(in.idx, o.gen, c.Step); cb == nil || cb.Step != c.Step {
+						if cb := d.demoteCbAfter(in.idx, o.gen, c.Step); cb == nil || cb.T > c.T+d.stallIn(in.idx, c.T, cb.T) {
 							d.h.violate("C12", "health-demotion-without-ondemote", fmt.Sprintf("i%d.%d demoted by the health mechanism at %v but OnDemote did not run", in.idx, o.gen, c.T), c.T, c.Step)
 						}
 					}
@@ -483,7 +483,8 @@ func (d *Driver) judgeC04() {
 					d.h.violate("C04", "validate-or-demote-false-but-still-leader", fmt.Sprintf("i%d ValidateTokenOrDemote returned false at %v but the term that began at %v continued", a.Inst, a.TRet, t.Start), a.TRet, a.SRet)
 				} else if !in.cfg.NoCallbacks {
 					cb := d.demoteCbAfter(a.Inst, a.Gen, t.SEnd)
-					if (cb == nil || cb.Step > a.SRet) && !d.stopFailed(t.Fall, o) && !stopStack(t.EndStack) {
+					// by the next quiescent point after the return: same virtual instant, stalls allowed for
+					if (cb == nil || cb.T > a.TRet+d.stallIn(a.Inst, t.End, cb.T)) && !d.stopFailed(t.Fall, o) && !stopStack(t.EndStack) {
 						d.h.violate("C04", "validate-or-demote-false-without-ondemote", fmt.Sprintf("i%d ValidateTokenOrDemote returned false at %v; leadership ended at %v but OnDemote had not run", a.Inst, a.TRet, t.End), a.TRet, a.SRet)
 					}
 				}
@@ -537,7 +538,9 @@ func (d *Driver) judgeC11() {
 				d.judgedInc("C11")
 				var td time.Duration = -1
 				for _, n := range notifs {
-					if n.Kind == ADisconnect && n.Step < t.SEnd {
+					// strictly earlier in virtual time: a notification arriving at the very instant of the
+					// expiry races with a demotion that is already under way (no implementation can order them)
+					if n.Kind == ADisconnect && n.T < t.End {
 						td = n.T
 					}
 				}
@@ -671,6 +674,18 @@ func (d *Driver) judgeC11() {
 				}
 				if own == other {
 					d.skip("C11", "record-changed-during-verification")
+					continue
+				}
+				// another verification of the same object that failed inside this window may be the one
+				// that demoted: not attributable
+				overlap := false
+				for _, other := range tests {
+					if other != g1 && other.TRet >= g1.TInvoke && other.TRet <= end.TRet+time.Millisecond && (other.Err != nil || other.Fault != "") {
+						overlap = true
+					}
+				}
+				if overlap {
+					d.skip("C11", "overlapping-verifications")
 					continue
 				}
 				d.judgedInc("C11")
